@@ -32,11 +32,11 @@ pub open spec fn const_den(v: real) -> spec_fn(Row) -> real { |row: Row| v }
 impl Expr {
     pub open spec fn at(self, row: Row) -> real { (self.den@)(row) }
     #[verifier::external_body] pub fn col<N: QxName>(n: N) -> (r: Expr) ensures forall|row: Row| #[trigger] r.at(row) == row(n.nm()), forall|row: Row| #[trigger] null_flag(r, row) == null_in(row, n.nm()), r.den@ == col_den(n.nm()) { unimplemented!() }
-    #[verifier::external_body] pub fn val<V: QxVal>(v: V) -> (r: Expr) ensures forall|row: Row| #[trigger] r.at(row) == v.rv(), r.den@ == const_den(v.rv()) { unimplemented!() }
+    #[verifier::external_body] pub fn val<V: QxVal>(v: V) -> (r: Expr) ensures forall|row: Row| #[trigger] r.at(row) == v.rv(), r.den@ == const_den(v.rv()), forall|row: Row| !(#[trigger] null_flag(r, row)) { unimplemented!() }
     // Expr::divide guards the denominator: case(b >= EPSILON or b <= -EPSILON, a / b, 0)   (expr/mod.rs)
     #[verifier::external_body] pub fn divide(a: Expr, b: Expr) -> (r: Expr)
         ensures forall|row: Row| #[trigger] r.at(row) == (if b.at(row) >= r_epsilon() || b.at(row) <= -r_epsilon() { a.at(row) / b.at(row) } else { 0real }) { unimplemented!() }
-    #[verifier::external_body] pub fn multiply(a: Expr, b: Expr) -> (r: Expr) ensures forall|row: Row| #[trigger] r.at(row) == a.at(row) * b.at(row) { unimplemented!() }
+    #[verifier::external_body] pub fn multiply(a: Expr, b: Expr) -> (r: Expr) ensures forall|row: Row| #[trigger] r.at(row) == a.at(row) * b.at(row), forall|row: Row| #[trigger] null_flag(r, row) == (null_flag(a, row) || null_flag(b, row)) { unimplemented!() }
     #[verifier::external_body] pub fn minus(a: Expr, b: Expr) -> (r: Expr) ensures forall|row: Row| #[trigger] r.at(row) == a.at(row) - b.at(row) { unimplemented!() }
     #[verifier::external_body] pub fn plus(a: Expr, b: Expr) -> (r: Expr) ensures forall|row: Row| #[trigger] r.at(row) == a.at(row) + b.at(row) { unimplemented!() }
     #[verifier::external_body] pub fn greatest(a: Expr, b: Expr) -> (r: Expr) ensures forall|row: Row| #[trigger] r.at(row) == r_max(a.at(row), b.at(row)) { unimplemented!() }
@@ -45,7 +45,7 @@ impl Expr {
     #[verifier::external_body] pub fn abs(a: Expr) -> (r: Expr) ensures forall|row: Row| #[trigger] r.at(row) == r_abs(a.at(row)) { unimplemented!() }
     #[verifier::external_body] pub fn pow(a: Expr, b: Expr) -> (r: Expr) ensures forall|row: Row| #[trigger] r.at(row) == r_pow(a.at(row), b.at(row)) { unimplemented!() }
     #[verifier::external_body] pub fn cast_as_integer(a: Expr) -> (r: Expr) ensures forall|row: Row| #[trigger] r.at(row) == r_round(a.at(row)) { unimplemented!() }
-    #[verifier::external_body] pub fn coalesce(a: Expr, b: Expr) -> (r: Expr) ensures forall|row: Row| #[trigger] r.at(row) == (if null_flag(a, row) { b.at(row) } else { a.at(row) }) { unimplemented!() }
+    #[verifier::external_body] pub fn coalesce(a: Expr, b: Expr) -> (r: Expr) ensures forall|row: Row| #[trigger] r.at(row) == (if null_flag(a, row) { b.at(row) } else { a.at(row) }), forall|row: Row| #[trigger] null_flag(r, row) == (null_flag(a, row) && null_flag(b, row)) { unimplemented!() }
     #[verifier::external_body] pub fn is_null(a: Expr) -> (r: Expr) ensures forall|row: Row| #[trigger] r.at(row) == (if null_flag(a, row) { 1real } else { 0real }) { unimplemented!() }
     #[verifier::external_body] pub fn case(c: Expr, a: Expr, b: Expr) -> (r: Expr) ensures forall|row: Row| #[trigger] r.at(row) == (if c.at(row) != 0real { a.at(row) } else { b.at(row) }) { unimplemented!() }
     #[verifier::external_body] pub fn gt(a: Expr, b: Expr) -> (r: Expr) ensures forall|row: Row| #[trigger] r.at(row) == (if a.at(row) > b.at(row) { 1real } else { 0real }) { unimplemented!() }
@@ -59,11 +59,12 @@ pub uninterp spec fn r_epsilon() -> real;   // expr::EPSILON, a tiny positive co
 #[verifier::external_body] pub proof fn ax_epsilon() ensures 0real < r_epsilon() < 1real {}
 #[verifier::external_body] pub proof fn ax_pow2() ensures forall|x: real| #[trigger] r_pow(x, 2real) == x * x {}
 /// Map builder: the fields it was given, by name (a later field with the same name replaces the earlier one)
-pub struct MapB { pub fields: Ghost<Map<Str, Expr>> }
-pub trait QxWithArg: Sized { spec fn apply(self, f: Map<Str, Expr>) -> Map<Str, Expr>; }
-impl<N: QxName> QxWithArg for (N, Expr) { open spec fn apply(self, f: Map<Str, Expr>) -> Map<Str, Expr> { f.insert(self.0.nm(), self.1) } }
+/// `cut`: the Map built carries a LIMIT or an OFFSET (its rows then depend on which other rows exist)
+pub struct MapB { pub fields: Ghost<Map<Str, Expr>>, pub cut: Ghost<bool> }
+pub trait QxWithArg: Sized { spec fn apply(self, f: Map<Str, Expr>) -> Map<Str, Expr>; spec fn cuts(self) -> bool; }
+impl<N: QxName> QxWithArg for (N, Expr) { open spec fn apply(self, f: Map<Str, Expr>) -> Map<Str, Expr> { f.insert(self.0.nm(), self.1) } open spec fn cuts(self) -> bool { false } }
 impl MapB {
-    #[verifier::external_body] pub fn with<A: QxWithArg>(self, a: A) -> (r: Self) ensures r.fields@ == a.apply(self.fields@) { unimplemented!() }
+    #[verifier::external_body] pub fn with<A: QxWithArg>(self, a: A) -> (r: Self) ensures r.fields@ == a.apply(self.fields@), r.cut@ == (self.cut@ || a.cuts()) { unimplemented!() }
 }
 pub open spec fn has_field(b: MapB, name: Str, f: spec_fn(Row) -> real) -> bool {
     b.fields@.contains_key(name) && forall|row: Row| #[trigger] b.fields@[name].at(row) == f(row)
